@@ -109,7 +109,24 @@ def run_cases(unit_name, cases, opts, world=None):
     discharge_all(rep, timeout_ms=opts.get('timeout_ms', 10000), recheck=(opts.get('tier') == 'thorough'))
     from .units import ob_dict, model_text
     violations = []
+    # An obligation the solvers leave open (satisfiable string / sequence queries with spec folds rarely get a model) is still only
+    # `undecided` -- unless the contract can search the real function natively for an input on which it disagrees with the contract's
+    # own clauses (case.search_on_unknown): then the open obligation is reported as refuted, with that input.  On code that satisfies the
+    # contract the search finds nothing and the obligation stays undecided, so this can never turn a harmless change into an alarm.
+    searched = {}
     for o in rep.obligations:
+        case = o.extra.get('case')
+        if o.result == 'unknown' and case is not None and getattr(case, 'search_on_unknown', False):
+            if id(case) not in searched:
+                try: searched[id(case)] = case.replay(None)
+                except Exception as ex: searched[id(case)] = {'status': 'replay-error', 'error': f'{type(ex).__name__}: {ex}'}
+            rp = searched[id(case)]
+            if rp and rp.get('status') == 'reproduced':
+                o.result = 'refuted'; o.backend = (o.backend or '') + ' unknown; failing input found by native search of the contract'
+                violations.append({'obligation': o.name, 'replay': dict(rp, found_by='native search after the solvers returned unknown'), 'model': None})
+    for o in rep.obligations:
+        if o.result == 'refuted' and o.model is None and any(v['obligation'] == o.name for v in violations):
+            continue
         if o.result == 'refuted':
             case = o.extra.get('case')
             rp = None
